@@ -1,5 +1,6 @@
 """C07 — statement-rewriting passes preserve meaning and never capture names."""
 import collections
+import json
 import copy
 
 import c01
@@ -149,7 +150,14 @@ def g_phase(rng):
                 out.append(["if", rng.choice([["v", "fl"], ["not", ["v", "gl"]]]), block(depth + 1, cnts, rng.randint(1, 2))])
             elif depth < 2 and r < 0.3 and len(cnts) < 2:
                 i = "i" if "i" not in cnts else "k"
-                out.append(["for", i, ["c", 1], ["c", rng.randint(1, sc.ARR_LEN)], block(depth + 1, cnts + [i], rng.randint(1, 2))])
+                if rng.random() < 0.3:
+                    # a loop variable that looks generated; half of the time no statement of the body mentions it
+                    # (the only place the name then occurs in the phase is the loop node)
+                    i = rng.choice([n for n in ("tmp", "tmp_0", "ifthenelse_result", "ifthenelse_result_0") if n not in cnts])
+                    inner = cnts + [i] if rng.random() < 0.5 else cnts
+                else:
+                    inner = cnts + [i]
+                out.append(["for", i, ["c", 1], ["c", rng.randint(1, sc.ARR_LEN)], block(depth + 1, inner, rng.randint(1, 2))])
             else:
                 out.append(leaf(cnts))
         return out
@@ -240,25 +248,52 @@ def out_nodes(ast):
     raise ser.Unsupported(type(ast).__name__)
 
 
-def per_leaf(orig_ast, new_ast):
-    """for every original leaf (in order) the statements it was replaced by"""
-    from dagrt.codegen.dag_ast import Block, ForLoop, IfThen, StatementWrapper
-    res = []
+def leaves_with_path(ast, path=()):
+    """the statements of a tree in program order, each with the if / for nodes it sits under"""
+    from dagrt.codegen.dag_ast import Block, ForLoop, IfThen, IfThenElse, StatementWrapper
+    if isinstance(ast, StatementWrapper):
+        return [(path, ast.statement)]
+    if isinstance(ast, Block):
+        out = []
+        for c in ast.children:
+            out += leaves_with_path(c, path)
+        return out
+    if isinstance(ast, IfThen):
+        return leaves_with_path(ast.then, path + (("if", json.dumps(ser.to_js(ast.condition))),))
+    if isinstance(ast, ForLoop):
+        return leaves_with_path(ast.body, path + (("for", ast.loop_var_name, json.dumps(ser.to_js(ast.lbound)),
+                                                   json.dumps(ser.to_js(ast.ubound))),))
+    if isinstance(ast, IfThenElse):
+        c = json.dumps(ser.to_js(ast.condition))
+        return (leaves_with_path(ast.then, path + (("if", c),)) +
+                leaves_with_path(ast.else_, path + (("else", c),)))
+    raise ser.Unsupported(type(ast).__name__)
 
-    def walk(o, n):
-        if isinstance(o, StatementWrapper):
-            if isinstance(n, Block):
-                res.append([fstmt_js(c.statement) for c in n.children])
-            else:
-                res.append([fstmt_js(n.statement)])
-        elif isinstance(o, Block):
-            for a, b in zip(o.children, n.children):
-                walk(a, b)
-        elif isinstance(o, IfThen):
-            walk(o.then, n.then)
-        elif isinstance(o, ForLoop):
-            walk(o.body, n.body)
-    walk(orig_ast, new_ast)
+
+def per_leaf(orig_ast, new_ast):
+    """for every original leaf (in order) the statements it was replaced by.
+
+    How the passes group what they emit into Blocks is not looked at (a Block has no guard, scope or
+    effect): the rewritten statement keeps its id and comes last, the statements derived from it
+    come directly before it, under the same if / for nodes.  A statement that turns up under other
+    nodes than its origin is reported with where it sits."""
+    old = leaves_with_path(orig_ast)
+    new = leaves_with_path(new_ast)
+    res = []
+    k = 0
+    for n_leaf, (path, st) in enumerate(old):
+        group = []
+        last = n_leaf == len(old) - 1
+        while k < len(new):
+            npath, nst = new[k]
+            k += 1
+            js = fstmt_js(nst)
+            if npath != path:
+                js = dict(js, moved_under=[list(x) for x in npath])
+            group.append(js)
+            if nst.id == st.id and not last:
+                break
+        res.append(group)
     return res
 
 
@@ -300,6 +335,7 @@ def model_input(case):
     ast, new, orders, ex = run_real(case)
     from dagrt.codegen.dag_ast import get_statements_in_ast
     return {"op": "C07.pass", "pass": case["pass"], "orders": orders,
+            "extra": sorted(structure_names(case["ast"])),
             "stmts": [fstmt_js(st) for st in get_statements_in_ast(ast)]}
 
 
@@ -370,6 +406,21 @@ def conjuncts(c):
     return [c]
 
 
+def structure_names(nodes):
+    """names that the loop and conditional nodes of a phase mention (as opposed to its statements)"""
+    acc = set()
+    for nd in nodes:
+        if nd[0] == "if":
+            c01.names_in(nd[1], acc)
+            acc |= structure_names(nd[2])
+        elif nd[0] == "for":
+            acc.add(nd[1])
+            c01.names_in(nd[2], acc)
+            c01.names_in(nd[3], acc)
+            acc |= structure_names(nd[4])
+    return acc
+
+
 def names_of_stmt(f):
     acc = set()
     c01.names_in(f["stmt"], acc)
@@ -405,7 +456,7 @@ def oracle(case, out):
     orig_leaves = list(leaves_of(case["ast"]))
     new_leaves = list(leaves_of(new_nodes))
     orig_ids = {f["id"] for f in orig_leaves}
-    orig_names = set()
+    orig_names = set(structure_names(case["ast"]))      # loop variables, names in loop bounds and conditions
     for f in orig_leaves:
         orig_names |= names_of_stmt(f)
     # ids: unique, introduced ones new
